@@ -81,6 +81,82 @@ fn svc_tok(svc: &[Svc]) -> String {
     svc.iter().map(Svc::tok).collect::<Vec<_>>().join(",")
 }
 
+// ================================================================ connection-prefix independence
+
+/// **What a connection does with a request does not depend on the requests served before it**
+/// (C07: every request is answered on its own, under its own header; C14: all complete requests
+/// before a point are served and what follows is judged as it stands).  The stream of a
+/// connection is cut at a read boundary behind which nothing is buffered – the prefix is a
+/// sequence of whole, well-formed requests, each of which got its answer – and the rest is fed to
+/// a *fresh* connection whose service continues where the first one stopped.  Prefix result
+/// followed by suffix result must be the result of the whole.  The implementation is compared
+/// with itself; no model is involved.
+pub fn mon_prefix_independence(out: &mut Out, l: &str, r: &str) {
+    let t: Vec<&str> = l.split(' ').collect();
+    if t[0] != "srv" || t.len() < 3 {
+        return;
+    }
+    let kind = t[1];
+    let fields = &t[2..];
+    if !field("w", fields).is_empty() {
+        return;
+    }
+    let evs: Vec<&str> = field("r", fields).split(',').filter(|e| !e.is_empty() && *e != "-").collect();
+    let Some(svc) = p_list(field("svc", fields), Svc::parse) else { return };
+    if evs.len() < 2 {
+        return;
+    }
+    // the longest proper prefix of read events that is data only and ends on a frame boundary
+    let mut best: Option<(usize, usize)> = None; // (events in the prefix, requests in it)
+    let mut data: Vec<u8> = vec![];
+    for (i, e) in evs.iter().enumerate().take(evs.len() - 1) {
+        if *e == "p" {
+            continue;
+        }
+        let Some(h) = e.strip_prefix('d') else { break };
+        let Some(b) = p_bytes(h) else { break };
+        if b.is_empty() {
+            break;
+        }
+        data.extend(b);
+        let frames: Option<Vec<Vec<u8>>> = if kind == "tcp" {
+            let items = spec::split_mbap(&data);
+            items.iter().map(|x| if let MbapItem::Frame(_, _, p) = x { Some(p.clone()) } else { None }).collect()
+        } else {
+            let fs = super::rtu_frames_prefix(&data);
+            let used: usize = fs.iter().map(|(_, p)| p.len() + 3).sum();
+            if used == data.len() { Some(fs.into_iter().map(|(_, p)| p).collect()) } else { None }
+        };
+        if let Some(fs) = frames {
+            let all_served = !fs.is_empty()
+                && fs.len() <= svc.len()
+                && fs.iter().all(|p| matches!(spec::classify_request(p), Verdict::Accept(_)))
+                && svc.iter().take(fs.len()).all(|s| match s {
+                    Svc::Reply(r) => spec::response_bytes(r).is_some_and(|b| b.len() <= 253),
+                    _ => true,
+                });
+            if all_served {
+                best = Some((i + 1, fs.len()));
+            }
+        }
+    }
+    let Some((cut, nreq)) = best else { return };
+    let other: Vec<&str> = fields.iter().copied().filter(|f| !f.starts_with("r=") && !f.starts_with("svc=")).collect();
+    let extra = if other.is_empty() { String::new() } else { format!(" {}", other.join(" ")) };
+    let pre = format!("srv {kind} svc={}{extra} r={}", svc_tok(&svc), evs[..cut].join(","));
+    let rest_svc = if nreq < svc.len() { svc_tok(&svc[nreq..]) } else { "D".to_string() };
+    let suf = format!("srv {kind} svc={rest_svc}{extra} r={}", evs[cut..].join(","));
+    let (_, rp) = crate::run::run_line(&pre);
+    let (_, rx) = crate::run::run_line(&suf);
+    let Some(rp_body) = rp.strip_suffix("end blocked") else { return };
+    // the prefix must have made exactly its calls (otherwise the service lists do not line up)
+    if rp_body.matches("call ").count() != nreq {
+        return;
+    }
+    let glued = format!("{rp_body}{rx}");
+    out.check(glued == r, || format!("the connection treats what follows {nreq} served request(s) differently from a fresh connection: whole `{}`, prefix then rest `{}`", super::codec::trunc(r), super::codec::trunc(&glued)), l);
+}
+
 // ================================================================ C07
 
 pub fn gen_c07(out: &mut Out, rng: &mut Rng, thorough: bool) {
@@ -332,7 +408,65 @@ pub fn gen_c14(out: &mut Out, rng: &mut Rng, thorough: bool) {
     }
 }
 
+/// line noise that arrives in several bursts (RTU): each burst is too short to exhaust the
+/// decoder's patience, the bursts together are not; a request behind them is still served and
+/// a close on the frame boundary behind it is silent
+pub fn gen_c14_noise_bursts(out: &mut Out, rng: &mut Rng, thorough: bool) {
+    for _ in 0..(if thorough { 400 } else { 40 }) {
+        let mut evs: Vec<String> = vec![];
+        let mut total = 0;
+        for _ in 0..rng.range(2, 5) {
+            let k = rng.range(1, 19);
+            total += k;
+            let noise: Vec<u8> = (0..k).map(|_| *rng.pick(&[0x00u8, 0x80, 0x41, 0x48, 0x64, 0x6E])).collect();
+            evs.push(format!("d{}", hex_raw(&noise)));
+            if rng.chance(1, 3) {
+                evs.push("p".into());
+            }
+        }
+        let _ = total;
+        // (a slave id that is itself no function code: otherwise the last noise byte and the slave id
+        // look like the head of a frame, and where the decoder then stands is C11's business)
+        let unit = *rng.pick(&[0x00u8, 0x80, 0x41, 0x44, 0x48, 0x64, 0x6A, 0x6E]);
+        let req = Request::ReadHoldingRegisters(rng.u16(), 2);
+        let f = frame("rtu", 0, unit, &spec::request_bytes(&req).unwrap());
+        evs.push(format!("d{}", hex_raw(&f)));
+        evs.push("e".into());
+        monitor_line(out, &format!("srv rtu svc={} r={}", Svc::Reply(Response::ReadHoldingRegisters(vec![1, 2])).tok(), evs.join(",")));
+    }
+}
+
+fn mon_c14_noise_bursts(out: &mut Out, l: &str, r: &str) -> bool {
+    // lines of the generator above: never-function-code noise in short bursts, one request, `e`
+    let t: Vec<&str> = l.split(' ').collect();
+    if t.len() != 4 || t[0] != "srv" || t[1] != "rtu" || !t[3].ends_with(",e") {
+        return false;
+    }
+    let evs: Vec<&str> = field("r", &t[2..]).split(',').collect();
+    let datas: Vec<Vec<u8>> = evs.iter().filter_map(|e| e.strip_prefix('d').and_then(p_bytes)).collect();
+    if datas.len() < 3 {
+        return false;
+    }
+    let (last, noise) = datas.split_last().unwrap();
+    if !noise.iter().all(|d| d.len() < 20 && d.iter().all(|b| super::stream::non_fc(*b))) {
+        return false;
+    }
+    let Some(fs) = split_rtu_clean(last, true) else { return false };
+    if fs.len() != 1 {
+        return false;
+    }
+    let ps = parts(r);
+    let calls = ps.iter().filter(|p| p.starts_with("call ")).count();
+    let writes = ps.iter().filter(|p| p.starts_with("write ")).count();
+    out.check(calls == 1 && writes == 1, || format!("the request behind line noise in short bursts was not served: `{}`", super::codec::trunc(r)), l);
+    out.check(ps.last().copied() == Some("end finished"), || format!("close on the frame boundary behind noise and a served request ended with `{}`", ps.last().copied().unwrap_or("")), l);
+    true
+}
+
 pub fn mon_c14(out: &mut Out, l: &str, r: &str) {
+    if mon_c14_noise_bursts(out, l, r) {
+        return;
+    }
     let t: Vec<&str> = l.split(' ').collect();
     if t[0] != "srv" {
         return;
